@@ -27,6 +27,7 @@ type ConcMerge struct {
 	Mode   uint32 `json:"mode"`
 	Public bool   `json:"public,omitempty"`
 	Buf    int    `json:"buf,omitempty"`
+	Twin   bool   `json:"twin,omitempty"` // a second task runs the same merge at the same time
 }
 
 // ConcPrelude: before the tasks start, a merge over freshly loaded file-backed
@@ -37,6 +38,9 @@ type ConcPrelude struct {
 	Inputs    []int `json:"inputs"`
 	FaultFrom int   `json:"fault_from"` // storage read (counted from the start of the merge) at which the first input starts failing
 	Kind      int   `json:"kind"`
+	// CancelAt > 0: instead of a storage fault the merge is cancelled (close
+	// channel closed) at its CancelAt-th write or input read
+	CancelAt int `json:"cancel_at,omitempty"`
 }
 
 type ConcCase struct {
@@ -51,6 +55,18 @@ type ConcCase struct {
 	// compression helpers and package-level state); its bytes must equal the
 	// bytes of the build done alone. 0: none, k>0: world segment (k-1) mod len.
 	Build int `json:"build,omitempty"`
+	// UnderLock: yield points reached while a segment lock is held are NOT
+	// skipped. A task may then be parked inside a critical section (the window
+	// a lock-free fast path of another task can see half-published state in);
+	// if the next task needs that lock the scheduler notices it blocked and lets
+	// everything run freely for the rest of the run (sched.go).
+	UnderLock bool `json:"under_lock,omitempty"`
+	// Fault: the shared (file-backed) view's storage fails for a few reads during
+	// the concurrent phase (index relative to its start). Operations may then
+	// fail; what is checked is that nobody panics or hangs (a task waiting for
+	// another task's failed load), that nothing races, that no lock stays held
+	// and that the segment reads right afterwards.
+	Fault *ReadFault `json:"fault,omitempty"`
 }
 
 func init() {
@@ -83,6 +99,7 @@ func genConcCase(t *rapid.T, prop string) *Case {
 		for i := 0; i < k; i++ {
 			m.Others = append(m.Others, rapid.IntRange(0, 5).Draw(t, "other"))
 		}
+		m.Twin = rapid.IntRange(0, 3).Draw(t, "twinmerge") == 0
 		cc.Merge = m
 	}
 	if rapid.IntRange(0, 3).Draw(t, "withbuilder") == 0 {
@@ -94,7 +111,14 @@ func genConcCase(t *rapid.T, prop string) *Case {
 		for i := 0; i < k; i++ {
 			p.Inputs = append(p.Inputs, rapid.IntRange(0, 5).Draw(t, "pin"))
 		}
+		if rapid.IntRange(0, 2).Draw(t, "prelude-cancel") == 0 {
+			p.CancelAt = 1 + rapid.IntRange(0, 60).Draw(t, "cancelat")
+		}
 		cc.Prelude = p
+	}
+	cc.UnderLock = rapid.IntRange(0, 3).Draw(t, "underlock") == 0
+	if cc.File && rapid.IntRange(0, 4).Draw(t, "concfault") == 0 {
+		cc.Fault = &ReadFault{From: rapid.IntRange(0, 30).Draw(t, "cf-from"), Count: rapid.IntRange(1, 3).Draw(t, "cf-count"), Kind: rapid.IntRange(0, NumReadFaultKinds-1).Draw(t, "cf-kind")}
 	}
 	return &Case{World: wd, Conc: cc, Sched: genSchedule(t, 40)}
 }
@@ -109,6 +133,7 @@ type taskOut struct {
 func runConcCase(c *Case, env *Env) *Result {
 	res := &Result{SubRuns: 1}
 	sched := NewSched(c.Sched)
+	sched.ParkUnderLock = c.Conc.UnderLock
 	defer res.absorb(sched)
 	w, fail := BuildWorldFor(env.Prop, c.World, sched)
 	if fail != nil {
@@ -145,12 +170,29 @@ func runConcCase(c *Case, env *Env) *Result {
 			pdrops = append(pdrops, bm)
 		}
 		if ok && firstRA != nil {
-			firstRA.SetFault(&ReadFault{From: firstRA.Calls() + p.FaultFrom, Kind: p.Kind})
 			wr := NewSimWriter(sched)
-			_, _, pi, err := RunMerge(&MergeDef{Public: true, Buf: 64}, 1025, psegs, pdrops, wr, nil)
+			var closeCh chan struct{}
+			if p.CancelAt > 0 {
+				closeCh = make(chan struct{})
+				events, closed := 0, false
+				tick := func() {
+					events++
+					if events == p.CancelAt && !closed {
+						close(closeCh)
+						closed = true
+					}
+				}
+				wr.OnWrite = func(int, int) { tick() }
+				firstRA.OnRead = func(int) { tick() }
+				res.probe("prelude-merge-cancelled")
+			} else {
+				firstRA.SetFault(&ReadFault{From: firstRA.Calls() + p.FaultFrom, Kind: p.Kind})
+			}
+			_, _, pi, err := RunMerge(&MergeDef{Public: true, Buf: 64}, 1025, psegs, pdrops, wr, closeCh)
+			firstRA.OnRead = nil
 			if pi != nil {
 				sched.Release()
-				res.Fail = &Fail{Prop: "C19", Oracle: "read-fault", Kind: "panic", Site: pi.Site, Detail: fmt.Sprintf("a merge whose input storage fails from read %d on panicked: %s", p.FaultFrom, pi.Msg)}
+				res.Fail = &Fail{Prop: "C19", Oracle: "read-fault", Kind: "panic", Site: pi.Site, Detail: fmt.Sprintf("a merge whose input storage fails from read %d on (or which is cancelled at event %d) panicked: %s", p.FaultFrom, p.CancelAt, pi.Msg)}
 				return res
 			}
 			if err != nil {
@@ -166,7 +208,7 @@ func runConcCase(c *Case, env *Env) *Result {
 		store = StoreFile
 	}
 	sched.Hold()
-	shared, _, _, pi, err := LoadView(ws.Bytes, store, sched)
+	shared, _, sharedRA, pi, err := LoadView(ws.Bytes, store, sched)
 	sched.Release()
 	if pi != nil || err != nil {
 		res.Fail = apiFail("C04", "world", "Load(shared view)", pi, err)
@@ -237,12 +279,33 @@ func runConcCase(c *Case, env *Env) *Result {
 	var mergeGot []byte
 	var mergeErr error
 	var mergePanic *PanicInfo
+	var twinGot []byte
+	var twinErr error
+	var twinPanic *PanicInfo
+	twin := false
 	if cc.Merge != nil {
 		bodies = append(bodies, func(int) {
 			wr := NewSimWriter(sched)
 			_, _, mergePanic, mergeErr = RunMerge(&MergeDef{Public: cc.Merge.Public, Buf: cc.Merge.Buf}, cc.Merge.Mode, mergeSegs, mergeDrops, wr, nil)
 			mergeGot = wr.Buf
 		})
+		if cc.Merge.Twin && len(bodies) < maxTasks-1 {
+			// two merges of the same inputs at once (the same segment in two
+			// overlapping merge plans of the index layer)
+			twin = true
+			twinDrops := make([]*roaring.Bitmap, len(mergeDrops))
+			for i, d := range mergeDrops {
+				if d != nil {
+					twinDrops[i] = d.Clone()
+				}
+			}
+			bodies = append(bodies, func(int) {
+				wr := NewSimWriter(sched)
+				_, _, twinPanic, twinErr = RunMerge(&MergeDef{Public: cc.Merge.Public, Buf: cc.Merge.Buf}, cc.Merge.Mode, mergeSegs, twinDrops, wr, nil)
+				twinGot = wr.Buf
+			})
+			res.probe("two-concurrent-merges-of-one-segment")
+		}
 	}
 	var buildGot, buildWant []byte
 	var buildErr error
@@ -259,6 +322,11 @@ func runConcCase(c *Case, env *Env) *Result {
 		}
 	}
 	res.probeN("re-entrant-nested-op", nested)
+	if cc.Fault != nil && sharedRA != nil {
+		f := *cc.Fault
+		f.From += sharedRA.Calls()
+		sharedRA.SetFault(&f)
+	}
 	if h := sched.Run(bodies, 30*time.Second); h != nil {
 		if h.MutexBlocked {
 			res.Fail = &Fail{Prop: "C09", Oracle: "concurrent", Kind: "hang", Site: "sync.Mutex.Lock", Detail: "a task blocked forever inside ice\n" + h.Dump}
@@ -273,6 +341,14 @@ func runConcCase(c *Case, env *Env) *Result {
 		res.NonTrivial = true
 	}
 
+	faulted := false
+	if sharedRA != nil {
+		faulted = sharedRA.FiredCount() > 0
+		sharedRA.SetFault(nil)
+		if faulted {
+			res.probe("storage-fault-during-the-concurrent-phase")
+		}
+	}
 	// (a)/(b): every operation delivered exactly its solo result
 	for ti := range cc.Tasks {
 		out := outs[ti]
@@ -282,6 +358,11 @@ func runConcCase(c *Case, env *Env) *Result {
 			if out.panics[oi] != nil {
 				res.Fail = &Fail{Prop: "C09", Oracle: "concurrent", Kind: "panic", Site: out.panics[oi].Site, Detail: where + " panicked: " + out.panics[oi].Msg}
 				return res
+			}
+			if faulted {
+				// operations may have failed or come back empty (C19); nothing more is
+				// asked of their results here
+				continue
 			}
 			if out.errs[oi] != nil {
 				res.Fail = &Fail{Prop: "C09", Oracle: "concurrent", Kind: "error", Site: ROpNames[op.Kind], Detail: fmt.Sprintf("%s failed on healthy storage: %v", where, out.errs[oi])}
@@ -293,10 +374,31 @@ func runConcCase(c *Case, env *Env) *Result {
 			}
 		}
 	}
-	if cc.Merge != nil {
+	if cc.Merge != nil && (mergePanic != nil || twinPanic != nil) {
+		pi := mergePanic
+		if pi == nil {
+			pi = twinPanic
+		}
+		res.Fail = apiFail("C09", "concurrent", "concurrent merge", pi, nil)
+		return res
+	}
+	if cc.Merge != nil && faulted && (mergeErr != nil || (twin && twinErr != nil)) {
+		// a merge that met the storage fault reported it: fine
+		res.probe("concurrent-merge-reported-the-storage-fault")
+	} else if cc.Merge != nil {
 		if mergePanic != nil || mergeErr != nil {
 			res.Fail = apiFail("C09", "concurrent", "concurrent merge", mergePanic, mergeErr)
 			return res
+		}
+		if twin {
+			if twinPanic != nil || twinErr != nil {
+				res.Fail = apiFail("C09", "concurrent", "second concurrent merge", twinPanic, twinErr)
+				return res
+			}
+			if !bytes.Equal(twinGot, wantMerge) {
+				res.Fail = mismatch("C09", "concurrent", "merge-output", fmt.Sprintf("the second of two merges of the same segment running at the same time wrote %d bytes differing from the solo output (%d bytes) at offset %d", len(twinGot), len(wantMerge), firstDiff(twinGot, wantMerge)))
+				return res
+			}
 		}
 		if !bytes.Equal(mergeGot, wantMerge) {
 			res.Fail = mismatch("C09", "concurrent", "merge-output", fmt.Sprintf("a merge running concurrently with %d reader tasks wrote %d bytes differing from its solo output (%d bytes) at offset %d", len(cc.Tasks), len(mergeGot), len(wantMerge), firstDiff(mergeGot, wantMerge)))
